@@ -403,6 +403,10 @@ def mark_loops(body, marks, what=''):
     Rewrites the loop condition to `LOOPHEAD_<name> && (cond)` and checks the loop's textual frame."""
     spans = loop_spans(body)
     want = marks.get('count')
+    if want is not None and len(spans) == 0 and want > 0:
+        # every marked loop is gone (e.g. a retry loop replaced by straight-line code): nothing to instantiate the loop rule
+        # on; the straight-line text is verified as /repo has it
+        return body
     if want is not None and len(spans) != want:
         raise ExtractionError('%s: found %d loops, spec expects %d' % (what, len(spans), want))
     edits = []
